@@ -78,6 +78,15 @@ def body(chk, db, cfgname):
                         ir = init_of(y)
                         if ir is not None and ir[0] == "mcall" and ir[1] == "Pomerol::Operator::actRight" and ir[2] in (("field", FP + "::O", THIS), ("deref", ("field", FP + "::O", THIS))) and ir[3][:2] == kstate[:2]:
                             good_img = True
+            if not good_img and lstate[0] == "var" and decls.get(lstate[1], {}).get("init") is not None:
+                # the same through any chain of single-assignment locals (an iterator kept in a variable, ...)
+                full = ctx.key(decls[lstate[1]]["init"])
+                kfull = ctx.key(decls[kstate[1]]["init"]) if kstate[0] == "var" and decls.get(kstate[1], {}).get("init") is not None else kstate
+                if full[0] == "field" and full[1].endswith("::first"):
+                    for y in _sub(full[2]):
+                        if y[0] == "mcall" and y[1] == "Pomerol::Operator::actRight" and len(y) == 4 and y[2] in (("field", FP + "::O", THIS), ("deref", ("field", FP + "::O", THIS)), ("un", "*", ("field", FP + "::O", THIS))) \
+                                and (y[3][:2] == kstate[:2] or y[3] == kfull):
+                            good_img = key_contains(full[2], lambda z: z[0] == "mcall" and z[1].split("::")[-1] in ("begin", "cbegin"))
             if not good_img:
                 probs.append("the row index is not taken from the image O|K> of the source state K")
         if probs:
